@@ -852,7 +852,7 @@ func genScen(w *world, sc *scriptT, nsteps int) {
 		k++
 		d := fmt.Sprintf("s%d", k)
 		add("fs", "mkdir", d)
-		switch w.rng.Intn(12) {
+		switch w.rng.Intn(13) {
 		case 0: // a listed path comes to name a file that is already watched under another name (old inode kept alive or not)
 			x, y := d+"/x", d+"/y"
 			add("fs", "create", x)
@@ -1043,6 +1043,42 @@ func genScen(w *world, sc *scriptT, nsteps int) {
 			add("fs", "write", d+"/par2/f")
 			add("proc", "A")
 			add("remove", hx("$R/"+f))
+		case 11: // names directly in the working directory: bare relative spellings, watched together with "." itself
+			f := fmt.Sprintf("rootf%d", k)
+			if w.rng.Intn(4) == 0 {
+				add("fs", "mkdir", f)
+			} else {
+				add("fs", "create", f)
+			}
+			rootSp := []string{".", "./", "$R", "$R/.", "./."}[w.rng.Intn(5)]
+			fSp := []string{f, "./" + f, f + "/.", "$R/" + f, "s1/../" + f}[w.rng.Intn(5)]
+			if w.rng.Intn(2) == 0 {
+				add("add", hx(rootSp), "31", "0")
+				add("add", hx(fSp), "31", "0")
+			} else {
+				add("add", hx(fSp), "31", "0")
+				add("add", hx(rootSp), "31", "0")
+			}
+			w.maybeProc(sc)
+			switch w.rng.Intn(4) {
+			case 0:
+				add("fs", "rmrf", f)
+			case 1:
+				add("fs", "open", f, "3")
+				add("fs", "rmrf", f)
+				add("proc", "A")
+				add("fs", "close", "3")
+			case 2:
+				add("fs", "rename", f, f+"moved")
+				add("fs", "chmod", f+"moved")
+			default:
+				add("fs", "chmod", f)
+				add("fs", "rmrf", f)
+			}
+			add("proc", "A")
+			add("list")
+			add("remove", hx(rootSp))
+			add("proc", "A")
 		default: // move out of a watched directory followed by more activity in the same batch
 			add("fs", "mkdir", d+"/w")
 			add("fs", "mkdir", d+"/out")
